@@ -138,9 +138,11 @@ PROPS = {
         "oracle_props": ["C11"],
         "property_files": ["C11.v"],
         "expected_theorems": ["C11_occupied_exact", "C11_occupied_in_time_order", "C11_count_is_number_of_occupied", "C11_first_is_minimum",
-                              "C11_last_is_maximum", "C11_bond_counts_add_up", "C11_var_has_ops_exact"],
+                              "C11_last_is_maximum", "C11_bond_counts_add_up", "C11_var_has_ops_exact",
+                              "C11_mutate_p_refines", "C11_sweep_invariant", "C11_new_container_is_scan", "C11_cutoff_growth_refines", "C11_cursor_matches_node"],
         "assumptions": [
-            "the refinement 'linked structure = scan of the contents' is decided by comparing the serde snapshot of every private link field with Model/Nav.v after every mutation (differential against the specification), not by a Coq refinement proof of mutate_p",
+            "the refinement theorem covers mutate_p with the All cursor, construction and cutoff growth; fill_args_at_p, clear_and_install_ops, mutate_subsection_ops and sub-variable (Varlist) cursors are not transcribed — they are covered by the per-mutation differential check of every link field only",
+            "the model is total (a read through a missing node yields None): panic freedom of the unwrap / index sites is not a theorem",
             "mutation callbacks respect the container's contracts: mutate_ops / sub-variable cursors only replace operators on the same variables (removal through mutate_ops reads next_p of the removed node and panics; a cursor cannot be prepared at p = len)",
         ],
         "trusted_base": ["serde_json view of FastOps (ops, links, n, p_ends, var_ends, bond_counters)"],
